@@ -649,6 +649,7 @@ htp_status_t htp_connp_RES_BODY_DETERMINE(htp_connp_t *connp) {
     // https://developer.mozilla.org/en-US/docs/Web/HTTP/Headers/Expect
     if (connp->out_tx->response_status_number >= 400 &&
         connp->out_tx->response_status_number <= 499 &&
+        connp->in_tx == connp->out_tx &&
         connp->in_content_length > 0 &&
         connp->in_body_data_left == connp->in_content_length) {
         htp_header_t *exp = htp_table_get_c(connp->out_tx->request_headers, "expect");
